@@ -9,7 +9,7 @@ META = dict(
     text="The model of a filter is an abstract set; the comparison is one-sided: whatever the model holds the real filter must report, about "
          "everything else nothing is claimed (false positives never alarm). Every transition of the bounded models is replayed: CBloomFilter "
          "(insert incl. duplicates, the empty element, a 32-byte value, the COutPoint overloads, a 1000-element bulk insert; ordinary and degenerate "
-         "configurations: empty bit vector, zero hash functions, one byte), CRollingBloomFilter(N = 2..5) with the generation mechanics as coded "
+         "configurations: empty bit vector, zero hash functions, one byte), CRollingBloomFilter(N = 3, 4 in quick; 2..4 graph-replayed and 5, 6 model-checked + simulated in thorough) with the generation mechanics as coded "
          "(ceil(N/2) insert calls per generation, three labels, oldest wiped) on which TLC proves the clause 'the last N inserted elements are present', "
          "GCSFilter and BlockFilter(BASIC) built from every subset of the universe (empty set, duplicates, +1000 elements, four parameter sets incl. "
          "P = 0 and P = 32) with Match for every element and MatchAny for every query set. Partial merkle trees: Pmt.tla models TraverseAndBuild / "
@@ -64,6 +64,28 @@ def replay(ctx, binary, module, cfg, mode, *, cover, name, env):
     return per_action
 
 
+def simulate(ctx, binary, module, mc_cfg, sim_cfg, mode, *, name, env, num, depth):
+    """Larger parameters: TLC model-checks the clause exhaustively, the implementation gets sampled behaviours (engine E2)."""
+    ctx.tlc("Filters", module, mc_cfg, name=name + "_mc", timeout=3000)
+    r = ctx.tlc("Filters", module, sim_cfg, name=name + "_sim", simulate=(num, depth))
+    tests = []
+    for b in vflib.sim_behaviours(r.emit_path):
+        b["init"] = fix(b["init"])
+        for s in b["steps"]:
+            s["exp"] = fix(s["exp"])
+        tests.append(b)
+        ctx.nontrivial.add(vflib.digest([name, [s["a"] for s in b["steps"]]]))
+    if not tests:
+        raise vflib.InfraError("no simulated behaviours from %s" % sim_cfg)
+    res = ctx.run_harness(binary, mode, tests, name=name, env=env)
+    ctx.evaluations += int(res["summary"]["steps"]); ctx.traces += int(res["summary"]["tests"])
+    ctx.extra["simulated_steps"] = ctx.extra.get("simulated_steps", 0) + int(res["summary"]["steps"])
+    vflib.report_mismatches(ctx, binary, mode, res, adapter="filters", what_prefix="%s %s: " % (module, sim_cfg))
+    ndev = int(res["summary"].get("deviations", 0))
+    if ndev:
+        ctx.extra["benign_retention_deviations"] = ctx.extra.get("benign_retention_deviations", 0) + ndev
+
+
 def run(ctx):
     fb = ctx.build_adapter("filters")
     mb = ctx.build_adapter("merkle")
@@ -72,9 +94,13 @@ def run(ctx):
     acts = collections.Counter()
     acts.update({"bloom." + k: v for k, v in replay(ctx, fb, "BloomFilter", "E1_bloom.cfg" if quick else "E1_bloom_t.cfg", "replay_bloom",
                                                      cover="edges", name="bloom", env=env).items()})
-    for n in ((3, 4) if quick else (2, 3, 4, 5)):
+    for n in ((3, 4) if quick else (2, 3, 4)):
         acts.update({"rolling." + k: v for k, v in replay(ctx, fb, "RollingFilter", ("E1q_rolling%d.cfg" if quick else "E1_rolling%d.cfg") % n, "replay_rolling",
                                                            cover="paths", name="rolling%d" % n, env=env).items()})
+    if not quick:
+        for n in (5, 6):
+            simulate(ctx, fb, "RollingFilter", "MC_rolling%d.cfg" % n, "Sim_rolling%d.cfg" % n, "replay_rolling", name="rolling%d" % n, env=env,
+                     num=3000, depth=60)
     acts.update({"gcs." + k: v for k, v in replay(ctx, fb, "GcsFilter", "E1_gcs.cfg" if quick else "E1_gcs_t.cfg", "replay_gcs",
                                                    cover="edges", name="gcs", env=env).items()})
     missing = [a for a in ("bloom.insert", "bloom.insertbulk", "rolling.insert", "rolling.reset", "gcs.build") if not acts[a]]
@@ -98,7 +124,7 @@ def run(ctx):
     ctx.extra["pmt_merkleblocks"] = int(res["summary"].get("merkleblocks", 0))
     ctx.sample([x for x in rows if x["ok"] and len(x["matched"]) == 2 and len(x["l"]) == 5][0])
     vflib.report_mismatches(ctx, mb, "pmt", res, adapter="merkle", what_prefix="Pmt: ", key_fn=lambda m, case: "pmt:" + vflib.digest(m.get("why")))
-    ctx.assumptions += ["bounded: universes of 4-6 elements (+1000 fillers through one macro action), rolling filters of N = 2..5, transaction lists of up to 9 (quick) / 12 (thorough) ids",
+    ctx.assumptions += ["bounded: universes of 4-6 elements (+1000 fillers through one macro action), rolling filters of N = 2..6, transaction lists of up to 9 (quick) / 11 (thorough) ids",
                         "a false negative shows as 'not reported' only if the element is not a false positive at the same time (rates 1e-6 for the rolling filter, 1/784931 for the basic GCS)",
                         "double-SHA256 is collision free (partial merkle trees are modelled over injective terms)"]
     return ctx.finish(level="model_checking", exhaustive=True,
